@@ -6,6 +6,7 @@ package bucketteer
 // concurrent lookups on one reader. Current and deprecated formats.
 
 import (
+	"bytes"
 	"encoding/binary"
 	"fmt"
 	"math/rand"
@@ -156,6 +157,7 @@ func TestVerifC05Child(t *testing.T) {
 	var put func(sig [64]byte)
 	var writerHas func(sig [64]byte) bool
 	var seal, closeW func() error
+	var wantMeta indexmeta.Meta
 	if format == "current" {
 		w, err := NewWriter(path)
 		if err != nil {
@@ -163,7 +165,26 @@ func TestVerifC05Child(t *testing.T) {
 		}
 		put, writerHas = w.Put, w.Has
 		seal = func() error {
-			_, err := w.Seal(indexmeta.Meta{})
+			// "all metadata": none for the big populations, the typed writers' few pairs or the largest allowed metadata
+			// (255 pairs of 255-byte keys and values) for the small files
+			var meta indexmeta.Meta
+			switch tail {
+			case 1:
+				meta.AddString([]byte("epoch"), "7")
+				meta.Add([]byte("rootCid"), bytes.Repeat([]byte{0x5a}, 36))
+			case 2, 3:
+				for i := 0; i < 255; i++ {
+					k, v := bytes.Repeat([]byte{byte(i)}, 255), bytes.Repeat([]byte{byte(255 - i)}, 255)
+					if tail == 3 && i == 254 {
+						v = v[:254]
+					}
+					if err := meta.Add(k, v); err != nil {
+						return err
+					}
+				}
+			}
+			wantMeta = meta
+			_, err := w.Seal(meta)
 			return err
 		}
 		closeW = w.Close
@@ -255,6 +276,9 @@ func TestVerifC05Child(t *testing.T) {
 					return
 				}
 				r, closer = x, func() { x.Close() }
+				if got := x.Meta(); got == nil || !bytes.Equal(got.Bytes(), wantMeta.Bytes()) {
+					o.Err = "the metadata read back differs from the metadata sealed"
+				}
 			case format == "current":
 				f, _ := os.Open(path)
 				x, err := NewReader(f)
@@ -263,6 +287,9 @@ func TestVerifC05Child(t *testing.T) {
 					return
 				}
 				r, closer = x, func() { f.Close() }
+				if got := x.Meta(); got == nil || !bytes.Equal(got.Bytes(), wantMeta.Bytes()) {
+					o.Err = "the metadata read back differs from the metadata sealed"
+				}
 			case kind == "open":
 				x, err := deprecated.Open(path)
 				if err != nil {
